@@ -383,24 +383,24 @@ fn main() {
         // classes DESIGN §C13 marks as required (each ≥5 % / each sink×encoding ≥10 % of ~6k quick cases);
         // the minimum counts are ~10x below what the quick tier measures
         for (class, min) in [
-            ("value-depth>=2", 60),
-            ("duplicate-key", 60),
-            ("non-string-map-key", 30),
-            ("scalar-map-key", 10),
-            ("composite-map-key", 5),
-            ("128-bit-or-non-finite", 60),
-            ("enum-variant", 30),
-            ("error-chain", 30),
-            ("capture-serde", 100),
-            ("capture-sval", 100),
-            ("sink-file", 400),
-            ("sink-term", 400),
-            ("otlp-logs-proto", 300),
-            ("otlp-logs-json", 300),
-            ("otlp-traces-proto", 60),
-            ("otlp-traces-json", 60),
-            ("otlp-metrics-proto", 60),
-            ("otlp-metrics-json", 60),
+            ("value-depth>=2", 250),
+            ("duplicate-key", 290),
+            ("non-string-map-key", 45),
+            ("scalar-map-key", 30),
+            ("composite-map-key", 16),
+            ("128-bit-or-non-finite", 250),
+            ("enum-variant", 230),
+            ("error-chain", 120),
+            ("capture-serde", 400),
+            ("capture-sval", 400),
+            ("sink-file", 600),
+            ("sink-term", 750),
+            ("otlp-logs-proto", 560),
+            ("otlp-logs-json", 560),
+            ("otlp-traces-proto", 125),
+            ("otlp-traces-json", 125),
+            ("otlp-metrics-proto", 100),
+            ("otlp-metrics-json", 100),
         ] {
             s.require(class, min);
         }
